@@ -32,7 +32,9 @@ from harness.lib import Family, Verdict, call, deep_eq, drive, jval
 RULE = ("integer-valued dense / sparse (sparsity some/all, stored order sorted/reversed/shuffled) / Kruskal "
         "(ranks 1..3, weights of both signs) / Tucker (dense and sparse core) tensors of order 2..4 with extents "
         "1..5 incl. singleton modes, every mode n, a count r on each side of the switch r < size-1, both "
-        "flipsign settings (gram); prepared exact spectra (distinct eigenvalues, dyadic orthogonal eigenvector "
+        "flipsign settings, plus dense / sparse / Tucker-core storage in uint8, int8, int16, int32, int64, float32 "
+        "(bool for sparse) with magnitudes that overflow the dtype in a sum of products while X_(n)X_(n)^T stays "
+        "exactly representable (gram, and with the real solvers); prepared exact spectra (distinct eigenvalues, dyadic orthogonal eigenvector "
         "matrices built from signed permutations and 4x4 Hadamard blocks) returned in shuffled order for every "
         "mode, every 1<=r<=size and both flipsign settings (post_exact); planted Tucker structure with "
         "geometrically separated spectrum plus noise and random integer arrays held in all four "
@@ -227,7 +229,7 @@ class Solvers:
         def f(a, *args, **kw):
             k = args[0] if args else kw.get("k")
             self.calls.append({"solver": name, "arg": materialise(a), "k": k,
-                               "argtype": type(a).__name__})
+                               "argtype": type(a).__name__, "dtype": str(getattr(a, "dtype", "?"))})
             if self.standin is not None:
                 return self.standin(name, self.calls[-1]["arg"], k)
             return orig(a, *args, **kw)
@@ -379,6 +381,9 @@ class Gram(Family):
                     bad = f"{rep}|solver-choice|{cl['solver']} called for size {m}, r {r}; model says {mpath}"
                 elif used == "iter" and cl["k"] != r:
                     bad = f"{rep}|solver-choice|iterative solver asked for {cl['k']} pairs, r = {r}"
+            if bad is None and "ok" not in res and res.get("exc") in ("ValueError", "TypeError"):
+                bad = (f"{rep}|raised|the solver rejected the matrix it was handed ({cl['argtype']}, dtype "
+                       f"{cl['dtype']}): {res.get('msg')}")
             nt = m > 1 and bool(np.any(np.array(A, dtype=float) != 0))
             out.append(Verdict(status if bad else "ok", bad or "", {"gram": G_impl, **info}, mg, G_ref, tags, nt))
         return out
@@ -630,25 +635,29 @@ def planted(rng, s, noise):
     return core, facs
 
 
-def holders(core, facs, stored_order, rng):
-    """the same array as tensor, sptensor, ktensor (one component per core entry) and ttensor."""
+def holders(core, facs, stored_order, rng, dname=None):
+    """the same array as tensor, sptensor, ktensor (one component per core entry) and ttensor.
+    With `dname` (identity factors only) the dense data, the sparse values and the Tucker core are stored
+    in that dtype; the Kruskal holder stays float64 (its constructor accepts nothing else)."""
     s = [f.shape[0] for f in facs]
+    dt = np_dtype(dname)
     A = core
     for k, U in enumerate(facs):
         A = np.moveaxis(np.tensordot(U, A, axes=(1, k)), 0, k)
-    T = ttb.tensor(np.asfortranarray(A), copy=True)
+    T = ttb.tensor(np.asfortranarray(A.astype(dt)), copy=True)
     subs = [c for c in gen.all_subs(s) if A[tuple(c)] != 0]
     if stored_order == "reversed":
         subs.reverse()
     elif stored_order == "shuffled":
         rng.shuffle(subs)
-    S = ttb.sptensor(np.array(subs, dtype=int), np.array([A[tuple(c)] for c in subs]).reshape(-1, 1), tuple(s))
+    S = ttb.sptensor(np.array(subs, dtype=int), np.array([A[tuple(c)] for c in subs]).reshape(-1, 1).astype(dt),
+                     tuple(s))
     cs = list(core.shape)
     csubs = gen.all_subs(cs)
     w = np.array([core[tuple(c)] for c in csubs])
     kf = [np.stack([facs[k][:, c[k]] for c in csubs], axis=1) for k in range(len(s))]
     K = ttb.ktensor(kf, w)
-    Tk = ttb.ttensor(ttb.tensor(np.asfortranarray(core), copy=True), [np.asfortranarray(f) for f in facs])
+    Tk = ttb.ttensor(ttb.tensor(np.asfortranarray(core.astype(dt)), copy=True), [np.asfortranarray(f) for f in facs])
     return A, {"dense": T, "sparse": S, "ktensor": K, "ttensor": Tk}
 
 
@@ -665,17 +674,30 @@ class RealSolver(Family):
             if all(e == 1 for e in s):
                 s[0] = 3
             shapes.append(s)
-        for s in shapes:
-            kind = rng.choice(["planted", "planted", "integer"])
+        plan = [(s, rng.choice(["planted", "planted", "integer"]), None) for s in shapes]
+        # storage dtypes other than float64 (dense data, sparse values, Tucker core), overflowing magnitudes
+        dts = [d for d in DTYPES if d != "bool"]
+        for d in dts:
+            for s in [[4, 3], [3, 2, 4]] + ([gen_shape(rng, tier) for _ in range(4)] if tier == "thorough" else []):
+                if all(e == 1 for e in s):
+                    s[0] = 3
+                plan.append((s, "integer", d))
+        for s, kind, dname in plan:
             seed = rng.getrandbits(32)
+            noise = rng.choice([0.0, 1e-2, 0.3])
+            stored = rng.choice(["sorted", "reversed", "shuffled"])
             for n in range(len(s)):
                 rs = list(range(1, s[n] + 1))
+                if dname and tier == "quick" and len(rs) > 2:
+                    rs = [1, s[n]]
                 for r in rs:
-                    fss = [True, False] if tier == "thorough" or len(rs) <= 3 else [rng.random() < 0.5]
+                    fss = [True, False] if (tier == "thorough" or len(rs) <= 3) and not dname else [rng.random() < 0.5]
                     for fs in fss:
-                        out.append({"shape": list(s), "kind": kind, "seed": seed, "n": n, "r": r, "flipsign": fs,
-                                    "noise": rng.choice([0.0, 1e-2, 0.3]),
-                                    "stored": rng.choice(["sorted", "reversed", "shuffled"])})
+                        c = {"shape": list(s), "kind": kind, "seed": seed, "n": n, "r": r, "flipsign": fs,
+                             "noise": noise, "stored": stored}
+                        if dname:
+                            c["dtype"] = dname
+                        out.append(c)
         return out
 
     @staticmethod
@@ -685,19 +707,22 @@ class RealSolver(Family):
         s = c["shape"]
         if c["kind"] == "planted":
             core, facs = planted(rng, s, c["noise"])
+        elif c.get("dtype"):
+            core = np.array(dtype_values(rng, c["dtype"], gen.numel(s)), dtype=float).reshape(tuple(s), order="F")
+            facs = [np.eye(e) for e in s]
         else:
             nprng = np.random.default_rng(c["seed"])
             core = nprng.integers(-4, 5, size=tuple(s)).astype(float)
             if not core.any():
                 core.flat[0] = 1.0
             facs = [np.eye(e) for e in s]
-        return holders(core, facs, c["stored"], rng)
+        return holders(core, facs, c["stored"], rng, c.get("dtype"))
 
     def evaluate(self, cases):
         out = []
         cache = {}
         for c in cases:
-            key = (tuple(c["shape"]), c["kind"], c["seed"], c["noise"], c["stored"])
+            key = (tuple(c["shape"]), c["kind"], c["seed"], c["noise"], c["stored"], c.get("dtype"))
             if key not in cache:
                 cache.clear()
                 cache[key] = self.build(c)
@@ -714,7 +739,8 @@ class RealSolver(Family):
             gaps = (lead[:-1] - lead[1:]) / scale if len(lead) > 1 else np.array([1.0])
             separated = bool(np.all(gaps > 1e-6)) and ev[0] > 0
             tags = [c["kind"], f"N{len(c['shape'])}", f"path-{path}", "flipsign" if fs else "noflip",
-                    "separated" if separated else "not-separated", "singleton-mode" if 1 in c["shape"] else "no-singleton"]
+                    "separated" if separated else "not-separated", "singleton-mode" if 1 in c["shape"] else "no-singleton",
+                    "dtype-" + (c.get("dtype") or "float64")]
             if not separated:
                 out.append(Verdict("ok", "", None, None, None, tags, False))
                 continue
